@@ -79,8 +79,18 @@ func runC01(t *testing.T, sc *scenario) {
 				return
 			}
 			for _, s := range syncs {
-				if muts := s.mcMutations(); len(muts) > 0 {
-					viol("hot-loop:"+muts[0].Verb+":"+muts[0].GVR.Resource+":"+sc.applyClass(), fmt.Sprintf("phase %d: a further sync at the fixed point still sends mutating requests:\n%s", phase, sim.Join(sim.DescribeLog(s.Requests, true))))
+				// "sends no create, update, patch or delete for any child": requests on the child
+				// resources count whether or not the server accepted or applied them; writes to the
+				// parent or to ControllerRevisions only count if they change the store (checked
+				// through the resourceVersion counter below)
+				var muts []*sim.Request
+				for _, q := range s.mcMutations() {
+					if q.GVR != sc.parentInfo().GVR() && q.GVR != env.RevisionGVR {
+						muts = append(muts, q)
+					}
+				}
+				if len(muts) > 0 {
+					viol("hot-loop:"+muts[0].Verb+":"+muts[0].GVR.Resource+":"+sc.applyClass(), fmt.Sprintf("phase %d: a further sync at the fixed point still sends mutating requests for children:\n%s", phase, sim.Join(sim.DescribeLog(s.Requests, true))))
 				}
 			}
 			if rv := r.w.sim.RV(); rv != rvBefore {
